@@ -8,6 +8,7 @@ What is a table in the source is extracted as a table:
     predicate is evaluated per class name);
   * the list methods `_ListWrapper` wraps with `_wrapture`, and whether `_wrapture` calls `on_modify`
     before the original method or once it has returned;
+  * that `TorConfig.__setattr__` copies every assigned list into a fresh `_ListWrapper` (shape checked);
   * DEFAULT_VALUE;
   * `set_conf`'s quoting: the characters that trigger quoting, the escape table (in order), the
     characters refused in keys.
@@ -168,6 +169,18 @@ def gen_config_types(repo):
     init = find_func(lw, '__init__')
     need(_norm(init.body) == _ref("def __init__(self, thelist, on_modify_cb):\n    list.__init__(self, thelist)\n"
                                   "    self.on_modify = on_modify_cb\n"), "_ListWrapper.__init__ shape")
+
+    # TorConfig.__setattr__: EVERY list that is assigned is copied into a fresh _ListWrapper bound to the
+    # assigned option (so two options never share a list object; the model assigns by value)
+    tc = find_class(tree, 'TorConfig')
+    sa = [n for n in tc.body if isinstance(n, ast.FunctionDef) and n.name == '__setattr__']
+    need(len(sa) == 1, "TorConfig.__setattr__")
+    wrap_ref = _norm(ast.parse("if isinstance(value, list):\n    value = _ListWrapper(value, functools.partial(self.mark_unsaved, name))\n").body)
+    ifs = [n for n in ast.walk(sa[0]) if isinstance(n, ast.If)]
+    wraps = [n for n in ifs if _norm([n]) == wrap_ref]
+    mentions = [n for n in ifs if any(isinstance(x, ast.Name) and x.id == '_ListWrapper' for x in ast.walk(n))
+                and n not in wraps and not any(w in ast.walk(n) for w in wraps)]
+    need(len(wraps) == 1 and not mentions, "TorConfig.__setattr__ list wrapping shape")
 
     # torcontrolprotocol: DEFAULT_VALUE and set_conf quoting
     ptree = parse(repo, 'txtorcon/torcontrolprotocol.py')
